@@ -30,6 +30,7 @@ from vlib.timeops import (
     targ,
     tick_datetime,
     triggers,
+    with_feedback,
 )
 from vlib.values import Tagged, canon
 
@@ -48,7 +49,7 @@ RULE = (
     "one instant not judged; timestamp = (value, clock reading as datetime); time_interval = (value, time since previous "
     "element or since subscription). Non-trivial: delay: >=2 elements and some element still pending when a later notification "
     "arrives; delay_subscription: d>0 and >=1 element; delay_with_mapper: >=2 elements and >=1 duration firing strictly later "
-    "than its element; timestamp/time_interval: >=2 elements. Every check except delay_with_mapper_subdelay subscribes, in 1 case of 3, the same built observable a second time at a generated tick s1 in s0+{0,1,2,3,7} and applies the same oracle to that probe with its own subscribe tick (absolute due time D: expected shift D - s1). Scheduler passing: operators with a scheduler parameter (delay, delay_subscription, timestamp, time_interval) are run in three modes - sub (no argument, subscription carries scheduler=lab scheduler), arg (scheduler=lab scheduler as operator argument, subscription carries none), arg-other (argument as before, subscription carries a different never-started virtual scheduler whose clock reads +1000 ticks; not for delay_subscription) - and must behave identically; one in four duration / subscription-delay observables of delay_with_mapper is a scheduler-less library factory (timer(d), empty(), return_value, never) that must inherit the subscribe-time scheduler. Any request for the real-time TimeoutScheduler during a run is refused and reported (realtime-fallback), any action left on the decoy scheduler is reported (wrong-scheduler). Thorough tier goes deeper: up to 10 elements per timeline (8 for delay_with_mapper), half of them dense (gaps 0-2), delays up to 8 ticks. Re-entrant feedback (check delay_feedback): delay(d) over a hot source into which the downstream, from inside the delivery of its k-th delayed element, synchronously pushes an error (must be delivered at that instant, pending elements dropped) or a new element (due d later); reference run enumerates both orders of deliveries and source notifications of one instant. Distinct = distinct case JSON."
+    "than its element; timestamp/time_interval: >=2 elements. Every check except delay_with_mapper_subdelay subscribes, in 1 case of 3, the same built observable a second time at a generated tick s1 in s0+{0,1,2,3,7} and applies the same oracle to that probe with its own subscribe tick (absolute due time D: expected shift D - s1). Scheduler passing: operators with a scheduler parameter (delay, delay_subscription, timestamp, time_interval) are run in three modes - sub (no argument, subscription carries scheduler=lab scheduler), arg (scheduler=lab scheduler as operator argument, subscription carries none), arg-other (argument as before, subscription carries a different never-started virtual scheduler whose clock reads +1000 ticks; not for delay_subscription) - and must behave identically; one in four duration / subscription-delay observables of delay_with_mapper is a scheduler-less library factory (timer(d), empty(), return_value, never) that must inherit the subscribe-time scheduler. Any request for the real-time TimeoutScheduler during a run is refused and reported (realtime-fallback), any action left on the decoy scheduler is reported (wrong-scheduler). Thorough tier goes deeper: up to 10 elements per timeline (8 for delay_with_mapper), half of them dense (gaps 0-2), delays up to 8 ticks. Re-entrant feedback (check delay_feedback): delay(d) over a hot source into which the downstream, from inside the delivery of its k-th delayed element, synchronously pushes an error (must be delivered at that instant, pending elements dropped) or a new element (due d later); reference run enumerates both orders of deliveries and source notifications of one instant. Check stamp_feedback: timestamp / time_interval over a hot source into which the consumer pushes a new element from inside its on_next for the k-th element; the pushed element arrives at that same instant right after the delivered one (clock reading = that instant, interval since the previous element = 0). Distinct = distinct case JSON."
 )
 ASSUMPTIONS = [
     "absolute datetimes passed to delay/delay_subscription are not earlier than the subscription instant",
@@ -410,6 +411,47 @@ def _judge_stamp(case, lab, p, s0, which):
     return judge(which, case, lab, p, [((), exp)], cls, n >= 2)
 
 
+def _run_stamp_fb(case):
+    """timestamp / time_interval over a hot source into which the consumer pushes element 1000+k from inside its on_next
+    for the k-th element: the pushed element arrives at the same instant, right after the element being delivered, so its
+    clock reading is that instant and its interval since the previous element is 0."""
+    lab = mk_lab(case["clock"])
+    s0, which = case["s0"], case["op"]
+    src = lab.source(case["src"])
+    fb = set(case["fb"])
+    if which == "timestamp":
+        o = src.pipe(ops.timestamp(), ops.map(lambda r: ("ts", r.value, r.timestamp)))
+    else:
+        o = src.pipe(ops.time_interval(), ops.map(lambda r: ("ti", r.value, r.interval)))
+    probes = execute_all(lab, with_feedback(o, src, fb), [s0])
+    # augmented timeline: both operators are 1:1, the k-th output is delivered during the k-th source element
+    eff, k = [], 0
+    pend = list(effective(case["src"], s0))
+    while pend:
+        m = pend.pop(0)
+        eff.append(m)
+        if m[1] != "N":
+            break
+        if k in fb:
+            pend.insert(0, [m[0], "N", f"n:{1000 + k}"])
+        k += 1
+    exp, last = [], s0
+    for m in eff:
+        T, kd, v = m
+        if kd != "N":
+            exp.append(fwd(m))
+        elif which == "timestamp":
+            exp.append([T, "N", canon(("ts", int(v[2:]), tick_datetime(lab, T)))])
+        else:
+            exp.append([T, "N", canon(("ti", int(v[2:]), tick_datetime(lab, T) - tick_datetime(lab, last)))])
+            last = T
+    cls = [f"clock:{case['clock']}", "feedback-during-delivery"]
+    pushed = sum(1 for m in eff if m[1] == "N" and int(m[2][2:]) >= 1000)
+    if pushed:
+        cls.append("feedback-element-stamped")
+    return judge(which, case, lab, probes[0], [((), exp)], cls, pushed >= 1 and len(eff) >= 3)
+
+
 # ------------------------------------------------------------------------------ strategies
 @st.composite
 def _delay_cases(draw, abs_ok=True, other_ok=True, max_len=5, ds=(0, 0, 1, 2, 3, 5)):
@@ -449,6 +491,13 @@ def _delay_fb_cases(draw):
     return {"clock": draw(st.sampled_from(CLOCKS)), "s0": s0, "src": spec, "d": d, "form": draw(st.sampled_from(FORMS_REL)), "fb": fb}
 
 
+@st.composite
+def _stamp_fb_cases(draw):
+    s0, spec = draw(sources(d=2, max_len=4, min_len=1, kinds=("hot",)))
+    fb = sorted(set(draw(st.lists(st.integers(0, 4), min_size=1, max_size=2))))
+    return {"clock": draw(st.sampled_from(CLOCKS)), "s0": s0, "src": spec, "op": draw(st.sampled_from(["timestamp", "time_interval", "time_interval"])), "fb": fb}
+
+
 def checks(tier):
     T = 16
     # thorough explores deeper: up to 10 elements per timeline (8 for delay_with_mapper) and delays up to 8 ticks
@@ -456,6 +505,7 @@ def checks(tier):
     return [
         Check("delay", _run_delay, strategy=_delay_cases(**deep), examples={"quick": 2400, "thorough": T * 12000}, shards={"quick": 4, "thorough": 16}),
         Check("delay_feedback", _run_delay_fb, strategy=_delay_fb_cases(), examples={"quick": 800, "thorough": T * 4000}, shards={"quick": 4, "thorough": 16}),
+        Check("stamp_feedback", _run_stamp_fb, strategy=_stamp_fb_cases(), examples={"quick": 400, "thorough": T * 2000}, shards={"quick": 4, "thorough": 16}),
         Check("delay_subscription", _run_delaysub, strategy=_delay_cases(other_ok=False), examples={"quick": 1200, "thorough": T * 5000}, shards={"quick": 4, "thorough": 16}),
         Check("delay_with_mapper", _run_dwm, strategy=_dwm_cases(max_len=4 if tier == "quick" else 8), examples={"quick": 2000, "thorough": T * 8000}, shards={"quick": 4, "thorough": 16}),
         Check("stamp", _run_stamp, strategy=_stamp_cases(), examples={"quick": 800, "thorough": T * 4000}, shards={"quick": 4, "thorough": 16}),
